@@ -40,7 +40,7 @@ def _rmap(rng, hi):
         # a realistically large map: header fields above 255 / 32767 / 65535, multi-line text records
         m, n = rng.choice([(130, 140), (260, 70), (200, 200), (37, 300), (1, 70000 // 4), (1100, 1000), (600, 2048)])
     return {"shape": [m, n], "seed": rng.getrandbits(32),
-            "vals": rng.choice(["mixed", "mixed", "pos", "neg", "const", "zero", "tiny", "huge", "pos_big", "neg_big"]),
+            "vals": rng.choice(["mixed", "mixed", "pos", "neg", "const", "zero", "tiny", "huge", "pos_big", "neg_big", "micro"]),
             "nan": rng.choice(["none", "none", "scatter", "rows", "all", "edge"]),
             "mag": 10 ** rng.uniform(-2, 4),
             "dtype": rng.choice(["f64", "f64", "f64", "f64", "f64", "f32", "f32", "i16", "i64"]),
@@ -226,6 +226,8 @@ def build_map(np, spec, wvl, fmt):
         z = np.zeros((m, n))
     elif vals == "tiny":
         z = (u - 0.5) * step * 0.9
+    elif vals == "micro":
+        z = (u - 0.5) * 2e-10               # a value range of 1e-10 nm: the text format scales to the map's own extreme
     elif vals == "huge":
         z = (u - 0.5) * 2 * (zmax if fmt != "codev" else 1e7)
     elif vals == "pos_big":
@@ -247,7 +249,7 @@ def build_map(np, spec, wvl, fmt):
         z[:] = np.nan
     if spec.get("dtype") == "f32":
         z = z.astype(np.float32)
-    elif spec.get("dtype") in ("i16", "i64") and not bool(np.any(np.isnan(z))) and vals not in ("tiny", "huge"):
+    elif spec.get("dtype") in ("i16", "i64") and not bool(np.any(np.isnan(z))) and vals not in ("tiny", "huge", "micro"):
         # heights given as integers (nm): a legal array type for a map without dropouts
         z = np.clip(np.rint(z), -30000, 30000).astype(np.int16 if spec["dtype"] == "i16" else np.int64)
     lay = spec.get("layout", "c")
@@ -547,7 +549,12 @@ def _judge(w, entry, spans, k, res, step_i, viol, bump, probes):
     if entry.get("f32"):
         tolv = tolv + np.abs(np.nan_to_num(z)) * 2.0 ** -21      # the input's own single-precision rounding
 
-    if all_complete:
+    # A text file cut inside its trailing white space has every number intact but IS shorter than what was
+    # written; a reader that insists on the terminator (the only way to tell a shortened last number from a
+    # complete one) and therefore rejects it, or warns and returns what it trusts, is as right as one that
+    # returns the whole map.  Quiet results are held to the complete-file contract.
+    short_text = all_complete and k < L and fmtc == "codev" and (outcome != "ok" or warned)
+    if all_complete and not short_text:
         # ---- complete-file contract (a cut that only removed trailing white space is complete too)
         if outcome != "ok":
             viol("complete-raised", step_i, fmtc, region, exc=type(exc).__name__, msg=str(exc)[:160])
